@@ -18,6 +18,22 @@ use std::{
     time::Duration,
 };
 
+
+/// Every reason a connection's handler can report for its end: whatever the reason, the end of a
+/// connection that is no longer the registered one must change nothing.
+pub const END_REASONS: [DisconnectReason; 7] = [
+    DisconnectReason::ConnectionClosed,
+    DisconnectReason::TimedOut,
+    DisconnectReason::Reset,
+    DisconnectReason::LocallyClosed,
+    DisconnectReason::ApplicationClosed,
+    DisconnectReason::TransportError,
+    DisconnectReason::VersionMismatch,
+];
+pub fn end_reason(n: usize) -> DisconnectReason {
+    END_REASONS[n % END_REASONS.len()].clone()
+}
+
 fn rt() -> tokio::runtime::Runtime {
     tokio::runtime::Builder::new_current_thread().enable_all().build().unwrap()
 }
@@ -193,7 +209,7 @@ pub fn c05_direct(idx: usize, seed: u64) -> ScenarioResult {
             for i in it {
                 if closed_before[i] {
                     let (ap, p, c) = &exits[i];
-                    ap.remove_with_stable_id(*p, c.stable_id(), DisconnectReason::ConnectionClosed);
+                    ap.remove_with_stable_id(*p, c.stable_id(), end_reason(n_orders as usize + i));
                 }
             }
             n_orders += 1;
@@ -389,11 +405,12 @@ pub fn c04_exhaustive(idx: usize, seed: u64, max_len: usize, stride: usize) -> S
                     }
                     Op::Exit(c) => {
                         let (local, _, peer) = &conns[*c];
-                        ap.remove_with_stable_id(*peer, local.stable_id(), DisconnectReason::ConnectionClosed);
+                        let reason = end_reason(si + *c + idx);
+                        ap.remove_with_stable_id(*peer, local.stable_id(), reason.clone());
                         if m.entries.get(peer) == Some(c) {
                             m.entries.remove(peer);
                             m.closed.insert(*c);
-                            m.events.push(PeerEvent::LostPeer(*peer, DisconnectReason::ConnectionClosed));
+                            m.events.push(PeerEvent::LostPeer(*peer, reason));
                         }
                     }
                     Op::Disconnect(p) => {
@@ -635,7 +652,7 @@ pub fn c04_stress(idx: usize, seed: u64, ops_per_thread: usize) -> ScenarioResul
                     0..=4 => {
                         let _ = ap.add(&own_id, c);
                     }
-                    5 | 6 => ap.remove_with_stable_id(*p, c.stable_id(), DisconnectReason::ConnectionClosed),
+                    5 | 6 => ap.remove_with_stable_id(*p, c.stable_id(), end_reason(rng.gen_range(0..7))),
                     7 => ap.remove(&remotes_ids[rng.gen_range(0..remotes_ids.len())], DisconnectReason::Requested),
                     8 => {
                         let l = ap.peers();
@@ -768,7 +785,7 @@ pub fn c04_race(idx: usize, seed: u64, rounds: usize) -> ScenarioResult {
             let r = match op {
                 ROp::Add(c) => Some(ap.add(&own_id, &conns[c])),
                 ROp::Exit(c) => {
-                    ap.remove_with_stable_id(peer, conns[c].stable_id(), DisconnectReason::ConnectionClosed);
+                    ap.remove_with_stable_id(peer, conns[c].stable_id(), end_reason(c + idx));
                     None
                 }
                 ROp::Disconnect => {
